@@ -240,19 +240,19 @@ def rule_identity_preserving_cache(ctx: Ctx) -> None:
         switches = sorted({p_ for c in ctors for p_ in c.param_names() if _re.fullmatch(r"(\w+_)?shared", p_)})
         if not switches:
             continue
-        kw = [norm(k.value) for k in r.value.keywords if k.arg is None]
-        block = par.get(id(r))
-        body = next((b for b in (getattr(block, "body", []), getattr(block, "orelse", [])) if any(x is r for x in b)), [])
-        before = body[: next(i for i, x in enumerate(body) if x is r)] if body else []
+        d_cc = Defs(cc)
         for sw in switches:
             n += 1
             direct = [k for k in r.value.keywords if k.arg == sw]
-            sets = [c for st in before for c in ast.walk(st) if isinstance(c, ast.Call) and isinstance(c.func, ast.Attribute) and c.func.attr in ("setdefault", "__setitem__") and norm(c.func.value) in kw
+            # stores of that option anywhere in create_cache (helpers are inlined by the normaliser): setdefault / item assignment
+            sets = [c for c in ast.walk(cc.node) if isinstance(c, ast.Call) and isinstance(c.func, ast.Attribute) and c.func.attr in ("setdefault", "__setitem__")
                     and c.args and isinstance(c.args[0], ast.Constant) and c.args[0].value == sw]
-            sets += [st for st in before if isinstance(st, ast.Assign) and any(isinstance(t, ast.Subscript) and norm(t.value) in kw and isinstance(t.slice, ast.Constant) and t.slice.value == sw for t in st.targets)]
+            sets += [st for st in ast.walk(cc.node) if isinstance(st, ast.Assign) and any(isinstance(t, ast.Subscript) and isinstance(t.slice, ast.Constant) and t.slice.value == sw for t in st.targets)]
             vals = [k.value for k in direct] + [c.args[1] for c in sets if isinstance(c, ast.Call) and len(c.args) > 1] + [st.value for st in sets if isinstance(st, ast.Assign)]
-            from_lazy = any(isinstance(x, ast.Name) and x.id == "lazy" for v in vals for x in ast.walk(v))
-            dyn = any(isinstance(c, ast.Call) and isinstance(c.func, ast.Attribute) and c.func.attr == "update" and norm(c.func.value) in kw for st in before for c in ast.walk(st))
+            vals += [v_ for d_ in ast.walk(cc.node) if isinstance(d_, ast.Dict) for k_, v_ in zip(d_.keys, d_.values) if isinstance(k_, ast.Constant) and k_.value == sw]
+            from_lazy = any(isinstance(x, ast.Name) and x.id == "lazy" for v in vals for x in ast.walk(d_cc.resolve(v)))
+            dyn = any(isinstance(c, ast.Call) and isinstance(c.func, ast.Attribute) and c.func.attr == "update" for c in ast.walk(cc.node)) or any(
+                isinstance(t, ast.Subscript) and not isinstance(t.slice, ast.Constant) for st in ast.walk(cc.node) if isinstance(st, ast.Assign) for t in st.targets)
             ctx.tri("3-shared", cc, r, from_lazy, not vals and not dyn, f"{norm(r.value.func)}: `{sw}` defaults to `not lazy` (deferred nodes are cached by identity, not pickled)",
                     f"{norm(r.value.func)}(...) is built without deriving `{sw}` from `lazy`: the class default (values pickled) applies to lazy pipelines too, every cache hit returns a COPY of the deferred node "
                     "and a producer shared by two requests is evaluated once per copy instead of exactly once", f"how `{sw}` is set for {norm(r.value.func)} was not recognised", key=f"unshared-when-lazy {norm(r.value.func)}.{sw}")
